@@ -4,7 +4,7 @@ CONSTANTS
   MinPaths = 2
   MaxPaths = 2
   Outcomes = {"success", "panic", "failflag"}
-  Replies = {"unsat", "unsat_rc1", "unsat_shared", "unknown"}
+  Replies = {"sat_valid", "unsat", "unsat_rc1", "unsat_shared", "unknown"}
   Replies2 = {"unsat"}
   StuckReplies = {"unsat"}
   EarlySet = {FALSE}
@@ -18,5 +18,6 @@ CONSTANTS
   Coarse = TRUE
   MutPrecedence = FALSE
   MutNoCatch = FALSE
+  MutKilledEscapes = FALSE
   KilledMayRaise = TRUE
 INVARIANTS TypeOK PassOnlyIfClean VerdictModuloKnown OrderIndependenceModuloKnown ExitNonZeroIffNotAllPass ValidNeverAbstract OneOutputPerQuery
